@@ -84,7 +84,11 @@ function genStmt (rng, ctx, nest, label) {
   const nw = nest > 0 && P.nextSite < 200 ? 2 : 0
   const k = rng.weighted([6, 4, 2, nw, nw, nw, nw, nw, nw, ctx.depth < 2 ? nw : 0, nw, 2, ctx.depth < 2 ? 1 : 0, nw / 2, nw / 2, nw / 2, 1])
   switch (k) {
-    case 0: return { t: 'expr', e: genOpExpr(rng, ctx, 2, label), wrap: rng.chance(1, 3) ? rng.pick(WRAPS.concat(ctx.f.isAsync ? ['await'] : [], ctx.f.isGen ? ['yield'] : [])) : null }
+    case 0:
+      // an immediately invoked async arrow: its body suspends at an await while the enclosing block goes on
+      // (never inside a loop: two suspended instances of one statement in one activation would make 'the latest evaluation of a site' ambiguous)
+      if (ctx.loop === 0 && rng.chance(1, 12)) return { t: 'expr', e: genOpExpr(rng, { ...ctx, f: { ...ctx.f, isAsync: true, isGen: false } }, 2, 'async-iife'), wrap: 'async-iife' }
+      return { t: 'expr', e: genOpExpr(rng, ctx, 2, label), wrap: rng.chance(1, 3) ? rng.pick(WRAPS.concat(ctx.f.isAsync ? ['await'] : [], ctx.f.isGen ? ['yield'] : [])) : null }
     case 1: return { t: 'const', name: fresh(P, 'v'), e: genOpExpr(rng, ctx, 2, label), wrap: rng.chance(1, 3) ? rng.pick(WRAPS.concat(['destructuring-default'])) : null }
     case 2: return { t: 'ret', e: genOpExpr(rng, ctx, 2, label) }
     case 3: return { t: 'if', c: genOpExpr(rng, ctx, 1, 'if-test'), then: genBlock(rng, ctx, nest - 1, label), els: rng.chance(1, 2) ? genBlock(rng, ctx, nest - 1, label) : null }
@@ -167,6 +171,8 @@ function genOpExpr (rng, ctx, d, label, nested) {
       const n = rng.range(1, 3)
       const ops = []
       for (let i = 0; i < n; i++) ops.push(operand())
+      // now and then a literal placeholder among them (`${1}`, `${'px'}`)
+      if (rng.chance(1, 6)) ops.splice(rng.below(ops.length + 1), 0, { t: 'lit', v: rng.pick(['1', "'px'", 'null', '0.5']) })
       return { t: 'tpl', id, label, ops }
     }
     case 5: return { t: 'call', id, label, m: rng.pick(['trim', 'trimStart', 'trimEnd']), recv: operand(), args: [], recvShape: rng.pick(['plain', 'paren']), form: rng.pick(['method', 'method', 'proto-call']) }
@@ -218,6 +224,7 @@ function render (P) {
       case 'alone': return cat(e.args.map(altsOf))
       case 'cond': return altsOf(e.cons).concat(altsOf(e.alt))
       case 'seq': return altsOf(e.inner)
+      case 'lit': return [[]]
       case 'plus': case 'tpl': return cat(e.ops.map(altsOf))
       case 'call': return cat([altsOf(e.recv)].concat(e.args.map(altsOf)))
     }
@@ -249,6 +256,7 @@ function render (P) {
       case 'fnarg': return `$.k(${A}, ${e.site}, function (a2, p = ${ex(e.def, 'a2')}) { return p; })`
       case 'cond': return `($.c(${A}, ${e.site}) ? ${ex(e.cons, A)} : ${ex(e.alt, A)})`
       case 'seq': return `($.p(${A}, ${e.site}), ${ex(e.inner, A)})`
+      case 'lit': return e.v
       case 'plus': {
         const parts = e.ops.map(o => ex(o, A))
         // nested `+` operands are flattened by the rewriter into one hook call: only the outermost
@@ -325,6 +333,7 @@ function render (P) {
       case 'spread': return `[...[${e}]]`
       case 'tagged': return `$.tag\`x\${${e}}y\``
       case 'iife': return /\b(yield|await)\b/.test(e) ? `(0, ${e})` : `(() => ${e})()`
+      case 'async-iife': return `(async () => ${e})().catch($.ac)`
       case 'nested-call': return `$.n($.n(${e}), 2)`
       case 'await': return `(await (${e}))`
       case 'yield': return `(yield (${e}))`
